@@ -39,7 +39,8 @@ def scenarios(thorough):
     # a body that raises must leave the destination untouched at every instant too
     for body, at in (("three", 0), ("three", 2), ("one", 1), ("big", 1)):
         for dp in (False, True):
-            out.append(base_cfg(body=body, raise_at=at, dest_present=dp))
+            for kind, text in (("Exception", False), ("KeyboardInterrupt", False), ("SystemExit", True), ("GeneratorExit", False)):
+                out.append(base_cfg(body=body, raise_at=at, dest_present=dp, raise_kind=kind, text_mode=text))
     for op in (False, True):
         out.append(base_cfg(part_present=True, overwrite_part=op))
         # leftover of a crash between link() and unlink(): the part name is a hard link to the destination
